@@ -15,8 +15,31 @@
 //!                                   [from-library]     a library item is listed
 //!                                   [module-missing]   a main-workspace module file is not listed (literal reading of the property)
 //!                                 exit 1 when anything was found, 0 otherwise.
-//!   replay child <ws> <out.json>  one export (what `emmylua_doc_cli <ws> -f json -o <out.json>` does)
+//!   replay child <ws> <out.json> [<ws2> ...]   one export (what `emmylua_doc_cli <ws> [<ws2> ...] -f json -o <out.json>` does)
+//!   replay search [seed] [runs]   bounded witness search over a SET of generated workspaces (see `mod search`): `FOUND[<clause>] ...`
+//!                                 + exit 1; `KNOWN module without export value not listed ...` (the open finding) does not
+//!                                 fail; exit 0 otherwise; exit 2 when a workspace cannot be written / a child fails
 //! Decides nothing: a hit is a concrete workspace on which the real exporter violates the sentence.
+//!
+//! search: ORACLE, from the statement and from what the generator itself wrote (no code shared with the exporter)
+//!   every workspace is described by the declarations the generator put into each file; a FILE is identified by its
+//!   canonical path (a file reachable through two paths -- directory symlink, aliased root -- is ONE file)
+//!   [exactly-once]    each public class / enum / alias NAME declared in at least one main file is listed exactly once
+//!                     (`(private)` classes: once per declaring file); inside an entry no declaration location
+//!                     (canonical file, line) appears twice; each global NAME assigned in a main file is listed
+//!                     exactly once; each main FILE whose chunk returns a value is listed exactly once in `modules`
+//!   [from-library]    no name declared ONLY in library files, no library file in `modules`; nothing of the std library
+//!                     (any listed name / module file the generator did not write is reported as unexpected)
+//!   [order] [entry-bytes]   `runs` (default 4) exports in child processes are byte-identical
+//!   KNOWN             a main file whose chunk returns nothing is not listed in `modules` (open finding, recorded)
+//!   (found by this search and fixed in the repository by 6bbebbb: two main files that both declare `---@class (partial)
+//!   Shape` gave `loc` lists in the hash-set order in which update_files_by_uri analysed the batch; the
+//!   `shared-with-library` workspace keeps that witness: it is an [entry-bytes] hit again if it comes back)
+//! BOUNDS  5 workspaces: `base` (the workspace of `replay [runs]`), `same-named-modules` (6 main roots each with util.lua,
+//!   foo.lua next to foo/init.lua, a library with util.lua too), `shared-with-library` (class (partial), enum and alias
+//!   declared in a library AND a main file; library-only items next to them), `symlink-inside-root` (compat -> src,
+//!   unix only), `symlinked-second-root` (a second root that is a symlink to a directory of the first, unix only);
+//!   the seed varies the number of filler declarations per file and their names.
 use emmylua_doc_cli::{CmdArgs, Parser, run_doc_cli};
 use serde_json::Value;
 use std::path::{Path, PathBuf};
@@ -102,8 +125,14 @@ fn check_names(run: usize, what: &str, got: &[String], want: &[(&str, usize)], l
 
 fn main() {
     let a: Vec<String> = std::env::args().skip(1).collect();
+    if a.first().map(|s| s.as_str()) == Some("search") {
+        search::run(a.get(1).and_then(|s| s.parse().ok()).unwrap_or(1), a.get(2).and_then(|s| s.parse().ok()).unwrap_or(4));
+    }
     if a.first().map(|s| s.as_str()) == Some("child") {
-        let args = CmdArgs::parse_from(["emmylua_doc_cli", a[1].as_str(), "-f", "json", "-o", a[2].as_str()]);
+        let mut argv: Vec<&str> = vec!["emmylua_doc_cli", a[1].as_str()];
+        argv.extend(a[3..].iter().map(|s| s.as_str()));
+        argv.extend(["-f", "json", "-o", a[2].as_str()]);
+        let args = CmdArgs::parse_from(argv);
         if let Err(e) = run_doc_cli(args) { eprintln!("export failed: {e}"); std::process::exit(3); }
         return;
     }
@@ -158,4 +187,306 @@ fn main() {
     if !bad { println!("OK {runs} exports of the same workspace are byte-identical ({} bytes); every main-workspace item is listed once, nothing from the library", outs[0].len()); }
     let _ = std::fs::remove_dir_all(&root);
     std::process::exit(if bad { 1 } else { 0 });
+}
+
+mod search {
+    use super::*;
+    use std::collections::{BTreeMap, BTreeSet};
+
+    #[derive(Clone, Copy, PartialEq)]
+    enum Kind { Class, PartialClass, PrivateClass, Enum, Alias }
+
+    /// what the generator writes into one file
+    #[derive(Default, Clone)]
+    struct Decls { types: Vec<(Kind, String)>, globals: Vec<String>, ret: Option<String>,
+                   /// hand-written text that declares exactly the above (None: generated by `text`)
+                   raw: Option<String> }
+
+    impl Decls {
+        fn text(&self) -> String {
+            if let Some(raw) = &self.raw { return raw.clone(); }
+            let mut s = String::new();
+            for (i, (k, n)) in self.types.iter().enumerate() {
+                match k {
+                    Kind::Class => s += &format!("---@class {n}\n---@field f{i} integer\nlocal {n}_{i} = {{}}\n\n"),
+                    Kind::PartialClass => s += &format!("---@class (partial) {n}\n---@field p{i}_{} string\n\n", self.globals.first().cloned().unwrap_or_default()),
+                    Kind::PrivateClass => s += &format!("---@class (private) {n}\n---@field q{i} integer\nlocal {n}_{i} = {{}}\n\n"),
+                    Kind::Enum => s += &format!("---@enum {n}\nlocal {n}_{i} = {{ One = 1, Two = 2 }}\n\n"),
+                    Kind::Alias => s += &format!("---@alias {n} integer|string\n\n"),
+                }
+            }
+            for (i, g) in self.globals.iter().enumerate() { s += &format!("{g} = {}\n", i + 1); }
+            if let Some(r) = &self.ret { s += &format!("\nreturn {r}\n"); }
+            s
+        }
+    }
+
+    struct Workspace {
+        name: &'static str,
+        roots: Vec<PathBuf>,                       // main roots, in command-line order (the first one holds .emmyrc.json)
+        main_files: Vec<(PathBuf, Decls)>,         // path as written (canonical: written below the canonical base, never through a link)
+        lib_files: Vec<(PathBuf, Decls)>,
+        links: Vec<String>,                        // description of the symlinks, for the report
+    }
+
+    struct Rng(u64);
+    impl Rng {
+        fn next(&mut self) -> u64 { self.0 ^= self.0 << 13; self.0 ^= self.0 >> 7; self.0 ^= self.0 << 17; self.0 }
+        fn below(&mut self, n: usize) -> usize { (self.next() % n as u64) as usize }
+    }
+
+    fn undecided(what: String) -> ! { println!("UNDECIDED {what}"); std::process::exit(2) }
+
+    const WORDS: [&str; 12] = ["Amber", "Birch", "Cedar", "Dune", "Ember", "Fjord", "Grove", "Heath", "Isle", "Jade", "Kelp", "Loch"];
+
+    /// filler declarations: 0-3 classes / globals with names that no other file uses
+    fn filler(rng: &mut Rng, tag: &str, d: &mut Decls) {
+        for _ in 0..rng.below(4) { let w = WORDS[rng.below(WORDS.len())]; let n = format!("{w}{tag}{}", d.types.len()); d.types.push((Kind::Class, n)); }
+        for _ in 0..rng.below(4) { let w = WORDS[rng.below(WORDS.len())].to_lowercase(); let n = format!("g_{w}_{tag}{}", d.globals.len()); d.globals.push(n); }
+    }
+
+    fn decls(types: &[(Kind, &str)], globals: &[&str], ret: Option<&str>) -> Decls {
+        Decls { types: types.iter().map(|(k, n)| (*k, n.to_string())).collect(), globals: globals.iter().map(|g| g.to_string()).collect(), ret: ret.map(String::from), raw: None }
+    }
+
+    fn emmyrc(root: &Path, libs: &[PathBuf]) {
+        let l: Vec<String> = libs.iter().map(|p| format!("{:?}", p.to_string_lossy())).collect();
+        write(&root.join(".emmyrc.json"), &format!("{{\"workspace\": {{\"library\": [{}]}}}}\n", l.join(", ")));
+    }
+
+    fn generate(base: &Path, seed: u64) -> Vec<Workspace> {
+        let mut rng = Rng(seed.wrapping_mul(0x9E37_79B9_7F4A_7C15) | 1);
+        let mut out = Vec::new();
+
+        // ---- the workspace of `replay [runs]`: one class per module file, enums / aliases in a file that returns nothing, two
+        //      file-private classes of one name, globals that are nil / unresolved / assigned twice / functions, one library
+        {
+            let b = base.join("base");
+            let (main, lib) = (b.join("main"), b.join("lib"));
+            let mut main_files = Vec::new();
+            for (i, c) in CLASSES.iter().enumerate() {
+                let mut d = decls(&[(Kind::Class, c)], &[GLOBALS[i]], Some("M"));
+                d.raw = Some(format!("---@class {c}\n---@field n{i} integer\nlocal {c} = {{}}\n\n{g} = {i}\n\nreturn {c}\n", g = GLOBALS[i]));
+                main_files.push((main.join(format!("mod_{}.lua", c.to_lowercase())), d));
+            }
+            main_files.push((main.join("kinds.lua"), decls(&[(Kind::Enum, "Colour"), (Kind::Enum, "Shape"), (Kind::Alias, "Ident"), (Kind::Alias, "Count")], &[], None)));
+            main_files.push((main.join("priv_a.lua"), decls(&[(Kind::PrivateClass, "Dup")], &[], Some("{ a = 1 }"))));
+            main_files.push((main.join("priv_b.lua"), decls(&[(Kind::PrivateClass, "Dup")], &[], Some("{ b = 1 }"))));
+            let mut odd = decls(&[], &["g_unresolved", "g_nil", "g_twice", "g_func"], None);
+            odd.raw = Some("g_unresolved = some_undefined_function()\ng_nil = nil\ng_twice = 1\ng_twice = 2\nfunction g_func() end\n".to_string());
+            main_files.push((main.join("odd_globals.lua"), odd));
+            main_files.push((main.join("sub/one.lua"), decls(&[], &[], Some("{ x = 1 }"))));
+            main_files.push((main.join("sub/two.lua"), decls(&[], &[], Some("42"))));
+            let mut three = decls(&[], &[], Some("t"));
+            three.raw = Some("local t = { y = 2 }\nreturn t\n".to_string());
+            main_files.push((main.join("sub/three.lua"), three));
+            let lib_files = vec![(lib.join("libmod.lua"), decls(&[(Kind::Class, "LibOnlyClass"), (Kind::Alias, "LibOnlyAlias")], &["lib_only_global", "lib_only_global2"], Some("{ z = 1 }")))];
+            emmyrc(&main, &[lib]);
+            out.push(Workspace { name: "base", roots: vec![main], main_files, lib_files, links: vec![] });
+        }
+        // ---- same-named modules: 6 main roots with util.lua, foo.lua next to foo/init.lua, a library util.lua
+        {
+            let b = base.join("same_named");
+            let roots: Vec<PathBuf> = (0..6).map(|i| b.join(format!("root{i}"))).collect();
+            let lib = b.join("lib");
+            let mut main_files = Vec::new();
+            for (i, r) in roots.iter().enumerate() {
+                let mut d = decls(&[], &[], Some("{ version = 1 }"));
+                d.types.push((Kind::Class, format!("Util{i}")));
+                d.globals.push(format!("util_g{i}"));
+                d.ret = Some(format!("{{ root = {i} }}"));
+                filler(&mut rng, &format!("U{i}x"), &mut d);
+                main_files.push((r.join("util.lua"), d));
+            }
+            let mut foo = decls(&[(Kind::Class, "FooFile")], &["foo_file_g"], Some("{ from = \"foo.lua\" }"));
+            filler(&mut rng, "Fa", &mut foo);
+            main_files.push((roots[0].join("foo.lua"), foo));
+            main_files.push((roots[0].join("foo/init.lua"), decls(&[(Kind::Class, "FooDir")], &["foo_dir_g"], Some("{ from = \"foo/init.lua\" }"))));
+            main_files.push((roots[3].join("foo/init.lua"), decls(&[(Kind::Enum, "FooDir3")], &[], Some("42"))));
+            let lib_files = vec![(lib.join("util.lua"), decls(&[(Kind::Class, "LibUtil")], &["lib_util_g"], Some("{ lib = true }")))];
+            out.push(Workspace { name: "same-named-modules", roots, main_files, lib_files, links: vec![] });
+            emmyrc(&out.last().expect("ws").roots[0], &[lib]);
+        }
+        // ---- class / enum / alias declared in a library AND in a main file
+        {
+            let b = base.join("shared");
+            let (main, lib, lib2) = (b.join("main"), b.join("vendor_shapes"), b.join("vendor_other"));
+            let mut ext = decls(&[(Kind::PartialClass, "Shape"), (Kind::Class, "Canvas"), (Kind::Enum, "Tone"), (Kind::Alias, "Handle")], &["canvas_g"], Some("{ canvas = true }"));
+            filler(&mut rng, "Sa", &mut ext);
+            let mut second = decls(&[(Kind::PartialClass, "Shape"), (Kind::PartialClass, "Brush")], &["brush_g"], None);
+            filler(&mut rng, "Sb", &mut second);
+            let main_files = vec![(main.join("shape_ext.lua"), ext), (main.join("sub/more_shapes.lua"), second)];
+            let lib_files = vec![
+                (lib.join("shapes.lua"), decls(&[(Kind::PartialClass, "Shape"), (Kind::Enum, "Tone"), (Kind::Alias, "Handle"), (Kind::Class, "VendorOnly"), (Kind::Alias, "VendorAlias")], &["vendor_g"], Some("{ vendor = true }"))),
+                (lib2.join("brushes.lua"), decls(&[(Kind::PartialClass, "Brush"), (Kind::Enum, "VendorEnum")], &["vendor_g2"], None)),
+            ];
+            emmyrc(&main, &[lib, lib2]);
+            out.push(Workspace { name: "shared-with-library", roots: vec![main], main_files, lib_files, links: vec![] });
+        }
+        // ---- a directory symlink inside the main root: every file below src is reachable through compat/ as well
+        #[cfg(unix)]
+        {
+            let b = base.join("symlink");
+            let (main, lib) = (b.join("project"), b.join("lib"));
+            let mut w = decls(&[(Kind::Class, "Widget"), (Kind::Enum, "WidgetKind"), (Kind::Alias, "WidgetId"), (Kind::PrivateClass, "Hidden")], &["WIDGET_VERSION"], Some("{ create = 1 }"));
+            filler(&mut rng, "Wa", &mut w);
+            let mut inner = decls(&[(Kind::Class, "Inner"), (Kind::PrivateClass, "Hidden")], &["inner_g"], Some("{ inner = true }"));
+            filler(&mut rng, "Wb", &mut inner);
+            let main_files = vec![(main.join("src/widget.lua"), w), (main.join("src/deep/inner.lua"), inner),
+                                  (main.join("app.lua"), decls(&[(Kind::Class, "App")], &["app_g"], Some("{ app = true }"))),
+                                  (main.join("src/silent.lua"), decls(&[(Kind::Alias, "SilentAlias")], &["silent_g"], None))];
+            let lib_files = vec![(lib.join("libmod.lua"), decls(&[(Kind::Class, "LibOnly")], &["lib_only_g"], Some("{ lib = true }")))];
+            emmyrc(&main, &[lib]);
+            out.push(Workspace { name: "symlink-inside-root", roots: vec![main.clone()], main_files, lib_files, links: vec![format!("{} -> {}", main.join("compat").display(), main.join("src").display())] });
+        }
+        // ---- a second main root that is a symlink to a directory of the first
+        #[cfg(unix)]
+        {
+            let b = base.join("aliased_root");
+            let (main, alias) = (b.join("project"), b.join("project_src"));
+            let mut m = decls(&[(Kind::Class, "Engine"), (Kind::Enum, "EngineState")], &["ENGINE_VERSION"], Some("{ start = 1 }"));
+            filler(&mut rng, "Ra", &mut m);
+            let main_files = vec![(main.join("src/engine.lua"), m), (main.join("top.lua"), decls(&[(Kind::Class, "Top")], &["top_g"], Some("{ top = true }")))];
+            emmyrc(&main, &[]);
+            out.push(Workspace { name: "symlinked-second-root", roots: vec![main.clone(), alias.clone()], main_files, lib_files: vec![], links: vec![format!("{} -> {}", alias.display(), main.join("src").display())] });
+        }
+        for ws in &out {
+            for (p, d) in ws.main_files.iter().chain(&ws.lib_files) { write(p, &d.text()); }
+        }
+        #[cfg(unix)]
+        for ws in &out {
+            for l in &ws.links {
+                let (link, target) = l.split_once(" -> ").expect("link");
+                if let Err(e) = std::os::unix::fs::symlink(target, link) { undecided(format!("cannot create the symlink {l}: {e}")); }
+            }
+        }
+        out
+    }
+
+    fn canon(p: &str) -> PathBuf { Path::new(p).canonicalize().unwrap_or_else(|_| PathBuf::from(p)) }
+
+    /// FOUND / KNOWN lines for one export of one workspace
+    fn check_export(ws: &Workspace, doc: &Value, found: &mut Vec<String>, known: &mut Vec<String>) {
+        let tag = ws.name;
+        // ---- types
+        let mut want: BTreeMap<String, usize> = BTreeMap::new();
+        for (_, d) in &ws.main_files {
+            let mut here = BTreeSet::new();
+            for (k, n) in &d.types {
+                if !here.insert(n.clone()) { continue; }
+                let e = want.entry(n.clone()).or_insert(0);
+                if *k == Kind::PrivateClass { *e += 1; } else { *e = 1; }
+            }
+        }
+        let lib_only: BTreeSet<String> = ws.lib_files.iter().flat_map(|(_, d)| d.types.iter().map(|(_, n)| n.clone())).filter(|n| !want.contains_key(n)).collect();
+        let got = names(doc, "types");
+        for (n, k) in &want {
+            let c = got.iter().filter(|g| *g == n).count();
+            if c != *k { found.push(format!("FOUND[exactly-once] {tag}: type `{n}` is declared in the main workspace and listed {c} time(s), expected {k}")); }
+        }
+        for g in &got {
+            if lib_only.contains(g) { found.push(format!("FOUND[from-library] {tag}: type `{g}` is declared only in a library")); }
+            else if !want.contains_key(g) { found.push(format!("FOUND[from-library] {tag}: type `{g}` is listed but no main file declares it (std library?)")); }
+        }
+        for t in doc.get("types").and_then(|t| t.as_array()).into_iter().flatten() {
+            let mut seen = BTreeSet::new();
+            for l in t.get("loc").and_then(|l| l.as_array()).into_iter().flatten() {
+                let key = (canon(l.get("file").and_then(|f| f.as_str()).unwrap_or("")), l.get("line").and_then(|n| n.as_u64()).unwrap_or(0));
+                if !seen.insert(key.clone()) {
+                    found.push(format!("FOUND[exactly-once] {tag}: type `{}`: the declaration at {}:{} is listed twice inside the entry (loc = {})", t.get("name").and_then(|n| n.as_str()).unwrap_or("?"), key.0.display(), key.1, t.get("loc").map(|l| l.to_string()).unwrap_or_default()));
+                }
+            }
+        }
+        // ---- globals
+        let want_g: BTreeSet<String> = ws.main_files.iter().flat_map(|(_, d)| d.globals.iter().cloned()).collect();
+        let lib_g: BTreeSet<String> = ws.lib_files.iter().flat_map(|(_, d)| d.globals.iter().cloned()).collect();
+        let got = names(doc, "globals");
+        for n in &want_g {
+            let c = got.iter().filter(|g| *g == n).count();
+            if c != 1 { found.push(format!("FOUND[exactly-once] {tag}: global `{n}` is assigned in one main file and listed {c} time(s)")); }
+        }
+        for g in &got {
+            if lib_g.contains(g) { found.push(format!("FOUND[from-library] {tag}: global `{g}` comes from a library")); }
+            else if !want_g.contains(g) { found.push(format!("FOUND[from-library] {tag}: global `{g}` is listed but no main file assigns it (std library?)")); }
+        }
+        // ---- modules, by FILE
+        let mut by_file: BTreeMap<PathBuf, Vec<String>> = BTreeMap::new();
+        for m in doc.get("modules").and_then(|m| m.as_array()).into_iter().flatten() {
+            let f = m.get("file").and_then(|f| f.as_str()).unwrap_or("");
+            by_file.entry(canon(f)).or_default().push(format!("{} ({f})", m.get("name").and_then(|n| n.as_str()).unwrap_or("?")));
+        }
+        let mut silent = Vec::new();
+        for (p, d) in &ws.main_files {
+            let listed = by_file.remove(&canon(&p.to_string_lossy())).unwrap_or_default();
+            match (d.ret.is_some(), listed.len()) {
+                (_, 1) => {}
+                (false, 0) => silent.push(p.file_name().map(|f| f.to_string_lossy().to_string()).unwrap_or_default()),
+                (true, 0) => found.push(format!("FOUND[module-missing] {tag}: module file {} returns a value and is not listed in `modules`", p.display())),
+                (_, n) => found.push(format!("FOUND[exactly-once] {tag}: module file {} is listed {n} times: {}", p.display(), listed.join(", "))),
+            }
+        }
+        if !silent.is_empty() { known.push(format!("KNOWN module without export value not listed: workspace `{tag}`, file(s) {}", silent.join(", "))); }
+        for (p, _) in &ws.lib_files {
+            if let Some(l) = by_file.remove(&canon(&p.to_string_lossy())) { found.push(format!("FOUND[from-library] {tag}: library file {} is listed in `modules`: {}", p.display(), l.join(", "))); }
+        }
+        for (f, l) in by_file { found.push(format!("FOUND[from-library] {tag}: `modules` lists {} which is not a file of the main workspace: {}", f.display(), l.join(", "))); }
+    }
+
+    pub fn run(seed: u64, runs: usize) -> ! {
+        let t0 = std::time::Instant::now();
+        let runs = runs.max(2);
+        let base = std::env::temp_dir().join(format!("vr_c35s_{}", std::process::id()));
+        let _ = std::fs::remove_dir_all(&base);
+        if std::fs::create_dir_all(&base).is_err() { undecided(format!("cannot create {base:?}")); }
+        let base = base.canonicalize().unwrap_or(base);
+        let me = std::env::current_exe().unwrap_or_else(|e| undecided(format!("current_exe: {e}")));
+        let (mut found, mut known): (Vec<String>, Vec<String>) = (Vec::new(), Vec::new());
+        let mut all = generate(&base, seed);
+        if cfg!(not(unix)) { println!("note: not a unix system: the two symlink workspaces are skipped"); }
+        let mut summary = Vec::new();
+        for ws in all.drain(..) {
+            let mut outs: Vec<Vec<u8>> = Vec::new();
+            for i in 0..runs {
+                let out = base.join(format!("{}_{i}.json", ws.name));
+                let mut cmd = std::process::Command::new(&me);
+                cmd.arg("child").arg(&ws.roots[0]).arg(&out);
+                for r in &ws.roots[1..] { cmd.arg(r); }
+                let st = cmd.stdout(std::process::Stdio::null()).stderr(std::process::Stdio::null()).status();
+                if !st.as_ref().is_ok_and(|s| s.success()) { undecided(format!("export {i} of workspace `{}` failed: {st:?}", ws.name)); }
+                outs.push(std::fs::read(&out).unwrap_or_else(|e| undecided(format!("no export written: {e}"))));
+            }
+            let docs: Vec<Value> = outs.iter().map(|b| serde_json::from_slice(b).unwrap_or(Value::Null)).collect();
+            let n0 = found.len();
+            check_export(&ws, &docs[0], &mut found, &mut known);
+            if !ws.links.is_empty() && found.len() > n0 { found.push(format!("      (workspace `{}` has the symlink {})", ws.name, ws.links.join(", "))); }
+            for i in 1..runs {
+                if outs[i] == outs[0] { continue; }
+                let mut order = false;
+                for key in ["types", "modules", "globals"] {
+                    let (x, y) = (names(&docs[0], key), names(&docs[i], key));
+                    if x != y { order = true; found.push(format!("FOUND[order] {}: export 0 / export {i}: `{key}` of the same workspace in different orders\n  export 0: {x:?}\n  export {i}: {y:?}", ws.name)); }
+                }
+                if !order {
+                    // same names in the same order: entries that share a name may still have swapped places
+                    let at = first_diff(&docs[0], &docs[i], "$".into()).unwrap_or_else(|| "(formatting only)".into());
+                    let swapped = first_diff(&normalized(&docs[0]), &normalized(&docs[i]), "$".into()).is_none();
+                    found.push(format!("FOUND[{}] {}: export 0 / export {i} of the same workspace differ at {at}{}", if swapped { "order" } else { "entry-bytes" }, ws.name,
+                        if swapped { " (the same entries, entries with one name in a different order)" } else { "" }));
+                }
+                break;
+            }
+            summary.push(format!("{} ({} main files, {} library files, {} bytes)", ws.name, ws.main_files.len(), ws.lib_files.len(), outs[0].len()));
+        }
+        for k in &known { println!("{k}"); }
+        for f in &found { println!("{f}"); }
+        let _ = std::fs::remove_dir_all(&base);
+        let secs = t0.elapsed().as_secs_f32();
+        let hits = found.iter().filter(|f| f.starts_with("FOUND")).count();
+        if hits == 0 {
+            println!("OK C35 search seed {seed}: {} workspaces x {runs} exports in child processes: byte-identical; every main item exactly once, nothing from libraries / std: {} ({secs:.1}s)", summary.len(), summary.join("; "));
+            std::process::exit(0);
+        }
+        println!("{hits} violation(s) of C35 on generated workspaces: {} ({secs:.1}s)", summary.join("; "));
+        std::process::exit(1);
+    }
 }
